@@ -59,11 +59,31 @@ func (p *Prog) ExtractTopology(fn *FuncNode) (*Topology, []string) {
 	t := &Topology{Nodes: map[string]*TopoNode{}, Fn: fn}
 	var problems []string
 	var visit func(f *FuncNode)
+	seen := map[*FuncNode]bool{}
+	isPipeline := func(t types.Type) bool {
+		tn, ok := derefNamed(t)
+		return ok && tn.Obj().Pkg() != nil && strings.HasSuffix(tn.Obj().Pkg().Path(), "x/confluence/plumber") && tn.Obj().Name() == "Pipeline"
+	}
 	visit = func(f *FuncNode) {
+		if seen[f] {
+			return
+		}
+		seen[f] = true
 		inspectNoLit(f.Body, func(n ast.Node) bool {
 			switch x := n.(type) {
 			case *ast.CallExpr:
 				callee := Callee(f, x)
+				// a package-local helper that is handed the pipeline assembles part of it
+				if cf, ok := callee.(*types.Func); ok {
+					if g := p.ByObj[cf.Origin()]; g != nil && g.Body != nil && g.Pkg == f.Pkg {
+						for _, a := range x.Args {
+							if t := f.Pkg.TypesInfo.TypeOf(a); t != nil && isPipeline(t) {
+								visit(g)
+								break
+							}
+						}
+					}
+				}
 				switch {
 				case isPlumberFunc(callee, "SetSource", "SetSegment", "SetSink"):
 					if len(x.Args) < 3 {
